@@ -171,3 +171,43 @@ def write_replay(prop, n, ob):
     with open(path, "w", encoding="utf-8") as f:
         json.dump({"property": prop, **ob.to_json(), "key": list(ob.key())}, f, indent=1, ensure_ascii=False)
     return path
+
+
+def run_rules(P, rules):
+    """run rule callables; an AnalysisError / internal error of one rule becomes an UNDECIDED obligation of that rule and
+    does not stop the others (a violation found by another rule is still reported)"""
+    import traceback
+    from .model import AnalysisError
+
+    results = []
+    for rule in rules:
+        fn, kw = (rule, {}) if not isinstance(rule, tuple) else rule
+        try:
+            r = fn(P, **kw)
+            rs = r if isinstance(r, list) else [r]
+        except AnalysisError as e:
+            rr = RuleResult(fn.__name__.replace("rule_", "").upper().replace("_", "-"), "(rule could not run)", "")
+            rr.undecided(_Anchor(P), None, str(e), construct=f"{fn.__name__}: {str(e)[:120]}")
+            rs = [rr]
+        except Exception as e:  # internal error: cannot decide, never a violation
+            rr = RuleResult(fn.__name__.replace("rule_", "").upper().replace("_", "-"), "(rule crashed)", "")
+            rr.undecided(_Anchor(P), None, f"internal error {type(e).__name__}: {e}", construct=f"{fn.__name__}: internal error {type(e).__name__}")
+            rr.note(traceback.format_exc()[-600:])
+            rs = [rr]
+        for rr in rs:
+            if len(rr.obs) < rr.min_instances:
+                rr.undecided(_Anchor(P), None, f"rule {rr.rule} matched {len(rr.obs)} instance(s), fewer than the {rr.min_instances} confirmed by hand "
+                             f"(it would pass vacuously)", construct=f"{rr.rule}: instance count")
+        results.extend(rs)
+    return results
+
+
+class _Anchor:
+    """pseudo-site for rule-level outcomes"""
+
+    def __init__(self, P):
+        self.qual = "<package>::<rule>"
+
+        class M:
+            rel = "<package>"
+        self.module = M()
